@@ -4,7 +4,11 @@ package main
 import (
 	"encoding/json"
 	"fmt"
+	"math/rand"
 	"os"
+	"regexp"
+	"sort"
+	"strings"
 
 	"cuelabs.dev/go/oci/ociregistry/ocimem"
 	"verif/harness/hx"
@@ -63,8 +67,17 @@ func runHistory(out *hx.Out, h history, origin string) []memsim.Result {
 			out.Count("errcode:" + r.Code)
 		}
 	}
-	coq := fmt.Sprintf("{| c_imm := %s; c_orc := %s; c_ops := %s; c_obs := %s |}",
-		hx.Bool(h.Immutable), or.Coq(), hx.List(opsCoq), hx.List(resCoq))
+	// every string a validity question was asked for (Obs/C02.v answers them itself, from the
+	// grammars of the specifications, and compares the harness's tables with its answers)
+	cand := fmt.Sprintf("{| k_repos := %s; k_tags := %s; k_digests := %s |}",
+		hx.Bs(keys(or.Repos)), hx.Bs(keys(or.Tags)), hx.Bs(keys(or.Digests)))
+	for r, v := range or.Repos {
+		if r != "" {
+			out.Count("reponame:" + repoShape(r, v))
+		}
+	}
+	coq := fmt.Sprintf("{| c_imm := %s; c_orc := %s; c_cand := %s; c_ops := %s; c_obs := %s |}",
+		hx.Bool(h.Immutable), or.Coq(), cand, hx.List(opsCoq), hx.List(resCoq))
 	type step struct {
 		Op  memsim.Op     `json:"op"`
 		Res memsim.Result `json:"res"`
@@ -82,6 +95,94 @@ func runHistory(out *hx.Out, h history, origin string) []memsim.Result {
 		out.Count("origin:" + origin)
 	}
 	return results
+}
+
+func keys(m map[string]bool) []string {
+	ks := make([]string, 0, len(m))
+	for k := range m {
+		ks = append(ks, k)
+	}
+	sort.Strings(ks)
+	return ks
+}
+
+var sepRuns = regexp.MustCompile(`[._-]+`)
+
+// repoShape classifies a repository name for the input distribution: which alternatives of
+// the grammar a valid name uses.
+func repoShape(r string, valid bool) string {
+	if !valid {
+		return "invalid"
+	}
+	var fs []string
+	if strings.Contains(r, "/") {
+		fs = append(fs, "path")
+	}
+	seen := map[string]bool{}
+	for _, sep := range sepRuns.FindAllString(r, -1) {
+		if len(sep) > 2 {
+			sep = "---"
+		}
+		seen[sep] = true
+	}
+	for _, sep := range []string{".", "_", "__", "-", "--", "---"} {
+		if seen[sep] {
+			fs = append(fs, "sep"+sep)
+		}
+	}
+	if len(r) >= 200 {
+		fs = append(fs, "long")
+	}
+	if len(fs) == 0 {
+		return "valid:plain"
+	}
+	return "valid:" + strings.Join(fs, ",")
+}
+
+// Names that only this harness uses (the others run histories through URLs): a repository
+// name of 255 bytes using every separator, and near misses made of bytes a URL path would not
+// carry unchanged.
+var (
+	longRepo = strings.Repeat("abcdefgh.ijklmnop_qrstuvwx__yz012345-6789abcd--efgh/", 5)[:254] + "z"
+	rawBadRepos = []string{"a//b", "/a", "a/", "a b", " a", "a\n", "\na", "a:b", "a@b", "a:5000/b", "a\u00e9", "a\x00b", "a%2fb", "a+b", "a,b", "a*", "a\tb",
+		"a/./b", "a/../b", "..", "a?b", "a#b", "a__b\n", "a__b/", longRepo + "_", longRepo + "/"}
+	rawBadTags    = []string{"a:b", "a@b", "a/b", "t\n", "\u00e9", "a b", " ", "t\x00", "sha256:e3b0c44298fc1c149afbf4c8996fb92427ae41e4649b934ca495991b7852b855"}
+	rawBadDigests = []string{"sha256:e3b0c44298fc1c149afbf4c8996fb92427ae41e4649b934ca495991b7852b855\n", " sha256:e3b0c44298fc1c149afbf4c8996fb92427ae41e4649b934ca495991b7852b855",
+		"sha256:e3b0c44298fc1c149afbf4c8996fb92427ae41e4649b934ca495991b7852b85 ", "sha256::e3b0c44298fc1c149afbf4c8996fb92427ae41e4649b934ca495991b7852b855",
+		"sha256+b64:47DEQpj8HBSa-_TImW-5JCeuQeRkm5NMpJWZG3hSuFU", "sha256:e3b0c44298fc1c149afbf4c8996fb92427ae41e4649b934ca495991b7852b8\u00e9"}
+)
+
+// newGen: the shared generator with this harness's extra names.
+func newGen(rnd *rand.Rand, large bool) *memsim.Gen {
+	g := memsim.NewGen(rnd, large)
+	g.BadRepos = append(append([]string{}, g.BadRepos...), rawBadRepos...)
+	g.BadTags = append(append([]string{}, g.BadTags...), rawBadTags...)
+	g.BadDigests = append(append([]string{}, g.BadDigests...), rawBadDigests...)
+	if rnd.Intn(12) == 0 {
+		g.Repos[rnd.Intn(len(g.Repos))] = longRepo
+	}
+	return g
+}
+
+func init() { // the pools are what their names say (by the specification's grammar, not the library's)
+	if !memsim.SpecValidRepository(longRepo) || len(longRepo) != 255 {
+		panic("longRepo")
+	}
+	for _, r := range rawBadRepos {
+		if memsim.SpecValidRepository(r) {
+			panic("valid repository in rawBadRepos: " + r)
+		}
+	}
+	for _, t := range rawBadTags {
+		if memsim.SpecValidTag(t) {
+			panic("valid tag in rawBadTags: " + t)
+		}
+	}
+	for _, d := range rawBadDigests {
+		if memsim.SpecValidDigest(d) {
+			panic("valid digest in rawBadDigests: " + d)
+		}
+	}
 }
 
 func main() {
@@ -121,7 +222,7 @@ func main() {
 	for i := 0; i < n; i++ {
 		imm := rnd.Intn(2) == 0
 		large := i%5 == 4
-		g := memsim.NewGen(rnd, large)
+		g := newGen(rnd, large)
 		// generate interleaved with execution on a scratch registry so that references are mostly valid
 		reg := ocimem.NewWithConfig(&ocimem.Config{ImmutableTags: imm})
 		ex := memsim.NewExec(reg, true)
